@@ -119,7 +119,8 @@ CLAIMS["C05"] = dict(
          "equal the definition on every reachable cell; AddPaths_ drops a trailing vertex equal to the first vertex of the same path only for closed "
          "paths; DoHorizontal keeps its end-of-segment tests active for a horizontal open end; BuildPath64 and BuildPathD treat open paths alike; the builders pass isOpen according to outrec->is_open and are "
          "handed a real open-solution object by every caller (a null one would send open records down the closed branch); an edge that stops "
-         "contributing clears its output record's pointer to itself (front_edge iff IsFront), at all three sites.",
+         "contributing clears its output record's pointer to itself (front_edge iff IsFront), at all three sites; has_open_paths_ is only ever "
+         "switched on where paths are added.",
     note="Positions of the cuts, lengths and independence of the closed solution are NOT decided.",
     technique="static analysis: abstract interpretation of decision code over finite partitions + sibling identity",
     design="§3 E3/E6, §4 C05", engine="E3")
@@ -170,7 +171,7 @@ CLAIMS["C15"] = dict(
          "storing the point; SetZ's decision table (end point z first, subject before clip, else DefaultZ); ClipperD's proxy callback follows the user's "
          "SetZCallback at every Execute (CheckCallback table, called before ExecuteInternal); a point that is only given new x and y "
          "(GetSegmentIntersectPt's out-parameter) is a local of the innermost enclosing loop, so it carries the default z; in the conversion layer (ScalePath(s), BuildPath64/D, PolyPath64/D, C "
-         "converters) a vertex made from one vertex's x and y has a z argument.",
+         "converters) a vertex made from one vertex's x and y has a z argument; no path assigns such an out-parameter as a whole before giving it new x / y.",
     note="Sufficient-condition check: a one-sided behaviour-preserving rewrite of an #ifdef branch is reported. Trusted: callbacks write only pt.z. "
          "NOT decided: that the vertex a callback saw survives CleanCollinear.",
     technique="static analysis: AST alignment modulo named patterns + forward may-pending dataflow + interpreted decision table",
@@ -252,7 +253,7 @@ CLAIMS["C06"] = dict(
          "definition of a reversed group, the output target set by every Execute overload, closing-vertex stripping per end type, x/y identical "
          "with and without USINGZ in every offsetter function, the join formulas as polynomial normal forms and the join dispatch on convex "
          "vertices (Miter within the limit else Square; Round; Bevel; Square), no return before the clean-up union except on 'no input / no "
-         "output / error', and "
+         "output / error', the caller's delta_ read only where the orientation-corrected group_delta_ is derived, and "
          "independence of the groups of one ClipperOffset (loop-carried-state dataflow); tables extracted by interpreting the AST over the complete finite domain of the flags.",
     note="What the joined offset curves enclose - tolerance bands, the square join's corner construction (DoSquare), concave vertices, shrinking "
          "beyond the inradius - is NOT decided; the formulas are decided as real-number formulas, not their floating-point evaluation.",
@@ -263,7 +264,7 @@ CLAIMS["C19"] = dict(
     text="The swept-region equality is geometric and NOT decided. Decided statically are structural necessary conditions of detail::Minkowski and "
          "its four wrappers: empty input returns empty before anything is indexed; sum adds / difference subtracts the pattern point; the path's "
          "closing edge is swept iff isClosed and every other edge always (whether or not an operand's last vertex repeats its first); quad corners; no continue jumps over the previous-cursor updates; every quad is made positively oriented before the NonZero union; wrappers pass the "
-         "right flags; every call (recursion included) keeps pattern and path in their slots; PathD overloads scale in and out (dimensional analysis).",
+         "right flags and union on a clipper of their own; every call (recursion included) keeps pattern and path in their slots; PathD overloads scale in and out (dimensional analysis).",
     note="That the union of the parallelograms equals the swept region within 2 units is NOT decided.",
     technique="static analysis: AST rules and small interpreted tables",
     design="§4 C19, §9", engine="E12")
